@@ -59,6 +59,13 @@ package sessiontracker
 //@   loop writeAndClearCache#1 invariant[done] forall i int :: old(len(out)) <= i && i < len(out) ==> Rendered(i, o.login.Source, o.cached[i - old(len(out))])
 //@   loop writeAndClearCache#1 invariant[frame] kept("F!sessiontracker.user!*") && kept_objs("F!auditevent.AuditEvent!*") && kept_objs("M!*") && kept("F!aucoalesce.Event!*") && kept("S!*") && outprefix_kept()
 
+//@ func (*user).hasCachedSessionEnd
+//@   requires o != nil && (forall j int :: 0 <= j && j < len(o.cached) ==> o.cached[j] != nil)
+//@   modifies nothing
+//@   ensures[def] result <==> HasEnd(o.cached)
+//@   loop hasCachedSessionEnd#1 invariant[idx] 0 - 1 <= rangeindex && rangeindex < len(o.cached)
+//@   loop hasCachedSessionEnd#1 invariant[none] forall j int :: 0 <= j && j <= rangeindex ==> o.cached[j].Type != auparse.AUDIT_CRED_DISP
+
 // ---------------------------------------------------------------------------------------------
 // The correlator's data-structure invariant (DESIGN.md section 4, I0-I8).
 //   g_opened[sid] : PID in the LOGIN record that opened session sid (set when the record is processed)
@@ -66,12 +73,13 @@ package sessiontracker
 //@ ghost g_opened : (Array String Int)
 //@ ghost g_disp : (Array String Bool)
 
+//@ pred HasEnd(c) := exists j int :: 0 <= j && j < len(c) && c[j].Type == auparse.AUDIT_CRED_DISP
 //@ pred SMap(o) := o.sessIDsToUsers.m
 //@ pred PMap(o) := o.pidsToRULs.m
 //@ pred UserOK(o, sid, u) := u != nil && alloc(u) && (u.cached.id == 0 || alloc(u.cached.id)) && u.srcPID == g_opened[sid]
 //@   | && (u.hasRUL ==> u.login.PID == u.srcPID && u.login.Source != nil && alloc(u.login.Source) && len(u.cached) == 0)
 //@   | && (forall j int :: 0 <= j && j < len(u.cached) ==> u.cached[j] != nil && alloc(u.cached[j]) && u.cached[j].Session == sid)
-//@   | && (g_disp[sid] ==> !u.hasRUL)
+//@   | && (g_disp[sid] ==> !u.hasRUL && HasEnd(u.cached))
 //@   | && (!u.hasRUL ==> !has(PMap(o), u.srcPID))
 //@ pred TrackerInv(o) := o != nil && o.sessIDsToUsers != nil && o.pidsToRULs != nil && SMap(o) != nil && PMap(o) != nil
 //@   | && o.eventWriter != nil && o.l != nil
@@ -91,7 +99,9 @@ package sessiontracker
 //@   ensures[c01] forall i int :: old(len(out)) <= i && i < len(out) ==> out[i].by == rul.Source && out[i].Type == "UserAction"
 //@   |   && g_opened[out[i].Metadata.AuditID] == rul.PID
 //@   ensures[bind] result == nil ==> (forall sid string :: Matched(o, rul, sid) && (forall t string :: Matched(o, rul, t) ==> t == sid) ==>
-//@   |   has(SMap(o), sid) && SMap(o)[sid] == old(SMap(o)[sid]) && SMap(o)[sid].hasRUL && SMap(o)[sid].login == rul && len(SMap(o)[sid].cached) == 0
+//@   |   (has(SMap(o), sid) <==> !old(HasEnd(SMap(o)[sid].cached)))
+//@   |   && (has(SMap(o), sid) ==> SMap(o)[sid] == old(SMap(o)[sid]))
+//@   |   && old(SMap(o)[sid]).hasRUL && old(SMap(o)[sid]).login == rul && len(old(SMap(o)[sid]).cached) == 0
 //@   |   && len(out) == old(len(out)) + old(len(SMap(o)[sid].cached))
 //@   |   && (forall i int :: old(len(out)) <= i && i < len(out) ==> Rendered(i, rul.Source, old(SMap(o)[sid].cached[i - old(len(out))]))))
 //@   ensures[park] result == nil && (forall sid string :: !Matched(o, rul, sid)) ==> len(out) == old(len(out)) && has(PMap(o), rul.PID) && PMap(o)[rul.PID] == rul
@@ -136,3 +146,26 @@ package sessiontracker
 //@   ensures[err] result != nil ==> wfailed || (event.Type == auparse.AUDIT_LOGIN && !atoiok(event.Process.PID))
 //@   ensures[prefix] outprefix_kept()
 //@   assert_at Write[render] EvIs(e, u.login.Source, event) && g_evsrc[e] == event && g_evby[e] == u.login.Source
+
+// Cleanup (C16): whole-view postconditions. Stale(u, t) = the session is uncorrelated and older than the cut-off.
+//@ pred Stale(u, t) := !u.hasRUL && u.added < t
+
+//@ func (*sessionTracker).DeleteUsersWithoutLoginsBefore
+//@   requires TrackerInv(o)
+//@   ensures[inv] TrackerInv(o)
+//@   ensures[dom] forall sid string :: has(SMap(o), sid) <==> (old(has(SMap(o), sid)) && !old(Stale(SMap(o)[sid], t)))
+//@   ensures[val] forall sid string :: has(SMap(o), sid) ==> SMap(o)[sid] == old(SMap(o)[sid])
+//@   ensures[frame] len(out) == old(len(out)) && kept_old("F!*") && kept_old("S!*") && kept_old("M!map<int>common.RemoteUserLogin!*") && kept_old("M!map<string>^sessiontracker.user!val*")
+//@   loop Iterate#1 invariant[shrink] forall k string :: has(SMap(o), k) ==> pre(has(SMap(o), k))
+//@   loop Iterate#1 invariant[vis] forall k string :: pre(has(SMap(o), k)) ==> ite(visited[k], has(SMap(o), k) <==> !Stale(SMap(o)[k], t), has(SMap(o), k))
+//@   loop Iterate#1 invariant[frame] len(out) == old(len(out)) && kept("F!*") && kept("S!*") && kept("M!map<int>common.RemoteUserLogin!*") && kept("M!map<string>^sessiontracker.user!val*") && kept("G!out*") && kept("G!g_*")
+
+//@ func (*sessionTracker).DeleteRemoteUserLoginsBefore
+//@   requires TrackerInv(o)
+//@   ensures[inv] TrackerInv(o)
+//@   ensures[dom] forall pid int :: has(PMap(o), pid) <==> (old(has(PMap(o), pid)) && !(old(PMap(o)[pid].Source.LoggedAt) < t))
+//@   ensures[val] forall pid int :: has(PMap(o), pid) ==> PMap(o)[pid] == old(PMap(o)[pid])
+//@   ensures[frame] len(out) == old(len(out)) && kept_old("F!*") && kept_old("S!*") && kept_old("M!map<string>^sessiontracker.user!*") && kept_old("M!map<int>common.RemoteUserLogin!val*")
+//@   loop Iterate#1 invariant[shrink] forall k int :: has(PMap(o), k) ==> pre(has(PMap(o), k))
+//@   loop Iterate#1 invariant[vis] forall k int :: pre(has(PMap(o), k)) ==> ite(visited[k], has(PMap(o), k) <==> !(PMap(o)[k].Source.LoggedAt < t), has(PMap(o), k))
+//@   loop Iterate#1 invariant[frame] len(out) == old(len(out)) && kept("F!*") && kept("S!*") && kept("M!map<string>^sessiontracker.user!*") && kept("M!map<int>common.RemoteUserLogin!val*") && kept("G!out*") && kept("G!g_*")
